@@ -1,5 +1,9 @@
 import GS.Model.Panics
 import GSProofs.Lemmas.PanicsRun
+import GSProofs.Lemmas.PanicsResCalm
+import GSProofs.Lemmas.PanicsResSlots
+import GSProofs.Lemmas.PanicsResLeak
+import GSProofs.Lemmas.PanicsResClean
 /-!
 # C22 - A panic in per-request code fails only that request
 
@@ -15,7 +19,11 @@ How the sentence is split:
   either side, lies under a recover frame.  The statement ranges over the generated table
   `GS.Generated.PanicSites.table` (translator `translate/panicsites`, regenerated from the Go source
   on every check run); `decide` over the whole finite table is a proof.
-* `isolation` - about the **model** (`GS.Model.Panics`), for all request lists, scripts, schedules,
+* `isolation_resources`, `later_unaffected`, `slots_returned`, `later_can_start`, `leak_counterexample` -
+  second layer (`GS.Model.PanicsRes`): worker slots, per-peer work in progress, table and tracker
+  entries, the traverser's mutex, with the clean-up path regenerated from the two `ExecuteTask`s
+  (`GS.Generated.PanicCleanup`); see the section at the end of this file.
+* `isolation` - first layer, "no crash + independent outcomes" only: about the **model** (`GS.Model.Panics`), for all request lists, scripts, schedules,
   injection points: given recover frames at all listed sites, turning any call of any request into a
   panic never kills the process, leaves what is observable of every other request exactly as in the
   fault-free run, and gives the faulted request the RecoveredPanicErr of that call plus exactly one
@@ -91,7 +99,10 @@ theorem framesOf_listed (t : List Site) (h : ∀ s ∈ t, s.kind ∈ listedKinds
     simp [this]
   · simp [hm]
 
-/-- **Isolation** (general theorem over the model): let the frames cover every listed kind.  Take any
+/-- **No crash + independent outcomes** (first layer; the requests of this model share nothing but the
+`crashed` flag, so item 2 below says no more than "not crashed" - what a recovered panic may keep
+HOLDING to the detriment of other requests is the subject of `isolation_resources`,
+`later_unaffected`, `slots_returned` further down).  Let the frames cover every listed kind.  Take any
 list of requests whose calls are of listed kinds, any schedule, any request `i` and any position
 `pos` in its script, and turn that call into a panic.  Then, compared with the unfaulted run under the
 same schedule:
@@ -220,5 +231,180 @@ theorem unrecovered_counterexample :
 kinds - a node, not a function; see STATUS.md): its second parse runs on the request manager's
 goroutine without a recover frame.  Recorded so that it stays visible. -/
 example : ∃ s ∈ table, s.kind = .selectorSpec ∧ s.recovered = false := by decide
+
+/-! ## Second layer: the resources a failed request shares with the others
+
+Model `GS.Panics.Res`: one node (requestor or responder) with `workers` task workers, a per-peer cap on
+work in progress, the request/response table, tracker records and the traverser's state mutex.  The
+clean-up a failing request runs is the statement list following the recovered traversal call in
+`ExecuteTask`, regenerated from the source (`GS.Generated.PanicCleanup`), and the traverser's recover
+frame likewise. -/
+
+open GS.Panics.Res GS.Generated.PanicCleanup
+
+/-- **What the current source's clean-up path does** (facts about the generated lists, by `decide`):
+for both nodes a recovered panic runs exactly the statements an ordinary error runs, the traverser's
+recover frame hands the panic to `writeDone` (which unlocks the state mutex), and for EVERY class of
+error - none, ordinary, recovered panic, paused, cancelled, network - the path calls TaskDone exactly
+once. -/
+theorem cleanup_path_ok (sd : Side) (w c : Nat) : PathOK (cfgOf sd w c) ∧ SlotsOK (cfgOf sd w c) := by
+  have same : cleanupActs (levelsOf sd) .panicked = cleanupActs (levelsOf sd) .ordinary := by
+    cases sd <;> decide
+  have unlock : travFrame.contains .writeDoneOnPanic = true := by decide
+  have one : ∀ cl : ErrClass, (cleanupActs (levelsOf sd) cl).countP isSlotRelease = 1 := by
+    intro cl; cases sd <;> cases cl <;> decide
+  exact ⟨⟨same, unlock⟩, one⟩
+
+theorem safe_of_listed (sd : Side) (w c : Nat) (reqs : List RReq)
+    (hk : ∀ r ∈ reqs, ∀ cl ∈ r.script, cl.kind ∈ listedKinds) : Safe (cfgOf sd w c) (Res.init reqs) := by
+  intro j r hr cl hcl _
+  have hr' : reqs[j]? = some r := by simpa [Res.init] using hr
+  exact framesOf_listed table sites _ _ (hk r (List.mem_iff_getElem?.mpr ⟨j, hr'⟩) cl hcl)
+
+theorem calm_init (reqs : List RReq) : calm (Res.init reqs) = Res.init (reqs.map calmReq) := by
+  simp [calm, Res.init]
+
+theorem resources_calm (s : RSys) : resources (calm s) = resources s := by
+  simp [resources, calm, calmReq, Function.comp_def]
+
+/-- **After a recovered panic every resource is where an ordinary error would have left it** - "the
+process keeps running and other requests are unaffected", for what requests really share.  For the
+node of either side as the source has it now, any number of workers `w ≥ 0` and per-peer cap `c`, any
+list of requests (calls of listed kinds, any of them panicking, any number of panics) and any
+schedule: the run does not crash, and - compared with the run in which every panicking call returns
+an ordinary error instead - busy workers, per-peer work in progress, table entries, tracker entries,
+every request's phase (incl. its remaining clean-up statements) and every mutex are IDENTICAL; the two
+runs differ only in the faulted requests' outcome (RecoveredPanicErr instead of the plain error) and
+the callback log (`calm`). -/
+theorem isolation_resources (sd : Side) (w c : Nat) (reqs : List RReq)
+    (hk : ∀ r ∈ reqs, ∀ cl ∈ r.script, cl.kind ∈ listedKinds) (sched : List Nat) :
+    let cfg := cfgOf sd w c
+    (Res.run cfg (Res.init reqs) sched).crashed = false ∧
+    resources (Res.run cfg (Res.init reqs) sched) = resources (Res.run cfg (Res.init (reqs.map calmReq)) sched) ∧
+    calm (Res.run cfg (Res.init reqs) sched) = Res.run cfg (Res.init (reqs.map calmReq)) sched := by
+  intro cfg
+  have hs := safe_of_listed sd w c reqs hk
+  have hcalm := calm_run (cleanup_path_ok sd w c).1 sched hs
+  rw [calm_init] at hcalm
+  exact ⟨run_crashed sched hs rfl, by rw [← hcalm, resources_calm], hcalm⟩
+
+/-- **Other requests are unaffected**: a request `j` none of whose own calls panics - e.g. one
+submitted later by the same peer, waiting for the single worker under a per-peer cap of 1 - is, after
+any schedule, in exactly the state (phase, remaining script, outcome, delivered flag, mutex) it is in
+when the other requests' panics are ordinary errors. -/
+theorem later_unaffected (sd : Side) (w c : Nat) (reqs : List RReq)
+    (hk : ∀ r ∈ reqs, ∀ cl ∈ r.script, cl.kind ∈ listedKinds) (sched : List Nat)
+    (j : Nat) (r : RReq) (hj : reqs[j]? = some r) (hclean : Clean r) :
+    (Res.run (cfgOf sd w c) (Res.init reqs) sched).reqs[j]? =
+      (Res.run (cfgOf sd w c) (Res.init (reqs.map calmReq)) sched).reqs[j]? := by
+  obtain ⟨_, _, h3⟩ := isolation_resources sd w c reqs hk sched
+  rw [← h3]
+  have hq : ∀ q, (Res.run (cfgOf sd w c) (Res.init reqs) sched).reqs[j]? = some q → Clean q :=
+    run_clean_at sched j (s := Res.init reqs) (fun q hq => by
+      have : q = r := by
+        have h' : reqs[j]? = some q := by simpa [Res.init] using hq
+        rw [hj] at h'; exact (Option.some.inj h').symm
+      rw [this]; exact hclean)
+  cases hget : (Res.run (cfgOf sd w c) (Res.init reqs) sched).reqs[j]? with
+  | none => simp [calm, hget]
+  | some q => simp [calm, hget, calmReq_clean (hq q hget)]
+
+/-- **Slots come back**: for the generated clean-up path, after ANY schedule (panics or not), the
+number of busy workers and every peer's work in progress equal the number of tasks that are really
+being executed; so whenever no request is being executed any more, no worker is busy and no peer has
+work in progress. -/
+theorem slots_returned (sd : Side) (w c : Nat) (reqs : List RReq)
+    (hq : ∀ r ∈ reqs, r.phase = .queued) (sched : List Nat) :
+    let s := Res.run (cfgOf sd w c) (Res.init reqs) sched
+    Inv s ∧ ((∀ r ∈ s.reqs, r.phase = .queued ∨ r.phase = .done) → s.busy = 0 ∧ ∀ p, s.active.count p = 0) := by
+  intro s
+  have hinv : Inv s := run_inv (cleanup_path_ok sd w c).2 sched (init_inv reqs hq)
+  exact ⟨hinv, idle_free hinv⟩
+
+/-- **A later request can still start**: in any state reached that way in which nothing is being
+executed, a queued request is popped as soon as it is scheduled - even with a single worker and a
+per-peer cap of 1. -/
+theorem later_can_start (sd : Side) (w c : Nat) (hw : 1 ≤ w) (reqs : List RReq)
+    (hq : ∀ r ∈ reqs, r.phase = .queued) (sched : List Nat) (j : Nat) (r : RReq) :
+    let cfg := cfgOf sd w c
+    let s := Res.run cfg (Res.init reqs) sched
+    s.crashed = false → (∀ q ∈ s.reqs, q.phase = .queued ∨ q.phase = .done) →
+    s.reqs[j]? = some r → r.phase = .queued →
+    ∃ r', (Res.step cfg s j).reqs[j]? = some r' ∧ r'.phase = .running := by
+  intro cfg s hc hidle hj hph
+  obtain ⟨_, hfree⟩ := slots_returned sd w c reqs hq sched
+  obtain ⟨hb, ha⟩ := hfree hidle
+  have hlt : j < s.reqs.length := (List.getElem?_eq_some_iff.mp hj).1
+  have hpop : canPop cfg s r = true := by
+    have hb' : s.busy = 0 := hb
+    have ha' : s.active.count r.peer = 0 := ha r.peer
+    have hw' : cfg.workers = w := rfl
+    have hcap : cfg.cap = c := rfl
+    simp only [canPop, hb', ha', hw', hcap, Bool.and_eq_true, Bool.or_eq_true, decide_eq_true_eq]
+    exact ⟨by omega, by omega⟩
+  refine ⟨{ r with phase := .running }, ?_, rfl⟩
+  show (Res.step cfg s j).reqs[j]? = _
+  unfold Res.step
+  simp [hc, hj, hph, hpop, List.getElem?_set_self hlt]
+
+/-! ### The resource theorems are not true by construction: a clean-up path that forgets TaskDone -/
+
+/-- the requestor's path with `ReleaseRequestTask` removed (e.g. `ExecuteTask` returning right after
+the recovered panic) -/
+def leakyCfg : Cfg :=
+  { cfgOf .requestor 1 1 with levels := (levelsOf .requestor).map (fun l => l.filter (fun it => it.act ≠ .releaseTask)) }
+
+def exA : RReq :=
+  { peer := 0, script := [⟨.requestor, .chooser, .ok⟩, ⟨.requestor, .storageRead, .panic⟩, ⟨.requestor, .codec, .ok⟩],
+    phase := .queued, out := .running, cls := .none, delivered := false, lock := false }
+def exB : RReq :=
+  { peer := 0, script := [⟨.requestor, .chooser, .ok⟩, ⟨.requestor, .codec, .ok⟩],
+    phase := .queued, out := .running, cls := .none, delivered := false, lock := false }
+/-- request 0 is driven to its end, then request 1 -/
+def exResSched : List Nat := [0, 0, 0, 0, 0, 0, 0, 0, 1, 1, 1, 1, 1, 1, 1, 1]
+
+/-- **Counterexample**: with one worker, a per-peer cap of 1 and the leaky path, once request 0 has
+been popped no schedule whatsoever ever lets request 1 of the same peer start - although request 0
+itself fails "properly" (RecoveredPanicErr, callback).  With the generated path the same two requests
+under a plain schedule both finish and everything is released. -/
+theorem leak_counterexample :
+    (∀ sched : List Nat, ∃ q, (Res.run leakyCfg (Res.init [exA, exB]) (0 :: sched)).reqs[1]? = some q ∧ q.phase = .queued) ∧
+    (let s := Res.run leakyCfg (Res.init [exA, exB]) exResSched
+     (s.reqs.map (·.phase) = [.done, .queued]) ∧ s.busy = 1 ∧ (s.reqs.map (·.out) = [.panicErr .requestor .storageRead, .running])) ∧
+    (let s := Res.run (cfgOf .requestor 1 1) (Res.init [exA, exB]) exResSched
+     (s.reqs.map (·.phase) = [.done, .done]) ∧ s.busy = 0 ∧ s.active = [] ∧ s.table = [] ∧ s.tracker = [] ∧
+     (s.reqs.map (·.out) = [.panicErr .requestor .storageRead, .completed])) := by
+  refine ⟨?_, by decide, by decide⟩
+  intro sched
+  have nr : NoRelease leakyCfg := fun cl => by cases cl <;> decide
+  have hstuck : Stuck leakyCfg (Res.step leakyCfg (Res.init [exA, exB]) 0) := by
+    refine ⟨?_, by decide⟩
+    intro j r hr
+    have hj : j = 0 ∨ j = 1 ∨ 2 ≤ j := by omega
+    rcases hj with rfl | rfl | h2
+    · have h' : (Res.step leakyCfg (Res.init [exA, exB]) 0).reqs[0]? = some { exA with phase := .running } := by decide
+      rw [h'] at hr
+      rw [← Option.some.inj hr]; simp [todoFree]
+    · have h' : (Res.step leakyCfg (Res.init [exA, exB]) 0).reqs[1]? = some exB := by decide
+      rw [h'] at hr
+      rw [← Option.some.inj hr]; simp [todoFree, exB]
+    · have hlen : (Res.step leakyCfg (Res.init [exA, exB]) 0).reqs.length = 2 := by decide
+      have hnone : (Res.step leakyCfg (Res.init [exA, exB]) 0).reqs[j]? = none := List.getElem?_eq_none (by omega)
+      rw [hnone] at hr; exact absurd hr (by simp)
+  have hfin := leak_starves nr sched hstuck 1 exB (by decide) rfl
+  simpa [Res.run] using hfin
+
+/-- Non-vacuity of `isolation_resources` / `later_unaffected`: a concrete system meeting the
+hypotheses (listed kinds, request 1 clean, one worker, cap 1) in which the panic really happens, the
+runs really differ in the outcome of request 0, and the resources really coincide. -/
+example :
+    (∀ r ∈ [exA, exB], ∀ cl ∈ r.script, cl.kind ∈ listedKinds) ∧ Clean exB ∧
+    (Res.run (cfgOf .requestor 1 1) (Res.init [exA, exB]) exResSched).reqs.map (·.out)
+      ≠ (Res.run (cfgOf .requestor 1 1) (Res.init ([exA, exB].map calmReq)) exResSched).reqs.map (·.out) ∧
+    (Res.run (cfgOf .requestor 1 1) (Res.init [exA, exB]) exResSched).cbLog = [(0, .requestor, .storageRead)] := by
+  refine ⟨?_, ⟨by decide, rfl, rfl⟩, by decide, by decide⟩
+  intro r hr cl hcl
+  simp only [List.mem_cons, List.mem_nil_iff, or_false] at hr
+  rcases hr with rfl | rfl <;> revert cl <;> decide
 
 end GS.C22
